@@ -81,6 +81,39 @@ REPEAT = ['(', ')', '{', '}', '[', ']', 'a{', 'a{b:', '@media{', '@media print{a
           'a{b:url(', 'var(', 'a{b:var(--', 'a{--x:{', 'a::', '@font-face{src:', 'a{b:c!', '\\1', '\\10FFFF', '1.', '.1.', '%']
 
 
+# name positions x escapes outside the ordinary: out-of-range code points, zero, surrogates, escaped white space / newline,
+# a lone backslash
+ESC_TEMPLATES = ['@{}x;', '@x{} y;', '@imp{}ort "x";', '@media all{{@x{} y;}}', 'a{{@x{} y;}}', '@{} {{a:b}}', '{}a{{b:c}}', 'a{}{{b:c}}',
+                 'a{{{}b:c}}', 'a{{b{}:c}}', 'a{{b:{}c}}', 'a{{b:c{}}}', 'a{{b:f{}(1)}}', 'a{{b:{}f(1)}}', 'a{{b:1p{}x}}', 'a{{b:1{}}}',
+                 'a{{b:#f{}f}}', 'a{{b:"{}"}}', "a{{b:'{}'}}", 'a{{b:url({})}}', 'a{{b:url("{}")}}', 'a{{b:u{}rl(x)}}', 'a:{}hover{{}}',
+                 'a:{}not(b){{}}', 'a::{}x{{}}', 'a[{}b=c]{{}}', 'a[b={}c]{{}}', 'a.{}{{}}', 'a#{}{{}}', '{}|a{{}}', '@media {}print{{}}',
+                 '@media print and ({}color){{}}', '@page :{}first{{}}', '@page {}{{}}', '@page{{@top-{}left{{}}}}', '@namespace {}p "u";',
+                 '@namespace p "{}";', '@font-face{{{}src:x}}', 'a{{b:c !{}important}}', 'a{{b:c !imp{}ortant}}', '@charset "{}";',
+                 '@import url({}) {};', '@import "{}" {};', 'a{{b:calc(1p{}x + 2px)}}', 'a{{b:rgb({},1,2)}}', 'a{{b:U+{}}}', '/*{}*/',
+                 'a{{b:c}}{}', '{}']
+ESCAPES = ['\\110000', '\\ffffff', '\\FFFFFF ', '\\0', '\\000000', '\\0 ', '\\d800', '\\dfff', '\\10ffff', '\\fffe', '\\1', '\\a',
+           '\\ ', '\\\n', '\\', '\\\\', '\\7f', '\\80', '\\x', '\\-', '\\"', '\\110000x', '\\999999 \\999999']
+
+# constructs nested in themselves: (before, opening, closing, after)
+NESTED = [('a{x:', 'f(', ')', '}'), ('a{x:', 'f(1,', ')', '}'), ('a{x:', 'f(g(', '))', '}'), ('a{x:', 'calc(', ')', '}'),
+          ('a{x:', 'rgb(', ')', '}'), ('a{x:', 'var(', ')', '}'), ('a{x:', '(', ')', '}'), ('a{x:', '[', ']', '}'), ('a{x:', '{', '}', '}'),
+          ('a{x:', '-f(', ')', '}'), ('a{x:expression(', '(', ')', ')}'), ('a{x:alpha(', 'f(', ')', ')}'), ('', 'a:not(', ')', '{}'),
+          ('', 'a:nth-child(', ')', '{}'), ('', 'a[', ']', '{}'), ('', '(', ')', '{}'), ('@media ', '(', ')', '{}'),
+          ('@media (a:', 'f(', ')', '){}'), ('', '@media print{', '}', ''), ('@x ', '{', '}', ''), ('@x ', '(', ')', ';'),
+          ('a{', '@x{', '}', '}'), ('@page{', '@top-left{', '}', '}'), ('@import url(', '(', ')', ');'), ('', 'a{', '}', ''),
+          ('', '{', '}', ''), ('', '[', ']', ''), ('a{x:url(', 'url(', ')', ')}')]
+
+# long flat runs: (before, item, after)
+LONG = [('a{x:', 'b ', '}'), ('a{x:', 'b,', 'c}'), ('a{x:', '1px ', '}'), ('a{x:', 'b/', 'c}'), ('a{x:f(', 'b ', ')}'), ('a{x:f(', 'b,', 'c)}'),
+        ('a{x:', 'rgb(1,2,3) ', '}'), ('a{x:', 'calc(1px) ', '}'), ('a{x:calc(1px', ' + 1px', ')}'), ('a{x:', '"s" ', '}'),
+        ('a{x:', 'url(u) ', '}'), ('a{x:', '#fff ', '}'), ('', 'a,', 'b{}'), ('', 'a ', '{}'), ('', 'a>', 'b{}'), ('a', '.b', '{}'),
+        ('a', '[b]', '{}'), ('a', ':hover', '{}'), ('a', ':not(b)', '{}'), ('a{', 'b:c;', '}'), ('a{', ';', '}'), ('a{', 'b:c!important;', '}'),
+        ('', 'a{}', ''), ('', '@import "x";', ''), ('', '@x;', ''), ('', '/**/', ''), ('', '@media print{}', ''), ('@media ', 'print,', 'tv{}'),
+        ('@media print', ' and (color)', '{}'), ('@page{', '@top-left{}', '}'), ('a{x:', '/**/', 'b}'), ('a{x:b', ' /**/', '}'),
+        ('', ' ', ''), ('', '\n', ''), ('', ';', ''), ('', '}', ''), ('', ')', ''), ('', '@namespace p "u";', ''), ('', '<!--', ''),
+        ('a{x:"', 'é', '"}'), ('a{x:', 'é', '}'), ('a{font-family:', 'é', ' 1}'), ('a{font-family:', 'é ', ' 1}')]
+
+
 def valid_sheet(rnd):
     g = selgen.Gen(rnd)
     parts = []
@@ -127,6 +160,21 @@ def gen_cases(tier, seed):
     for _ in range(n // 3):
         a, b = rnd.choice(REPEAT), rnd.choice(REPEAT)
         cases.append(('repeat', (a * rnd.randint(1, 4) + b * rnd.randint(1, 3)) * rnd.randint(5, 40)) + settings())
+    for tmpl in ESC_TEMPLATES:
+        for e in ESCAPES:
+            cases.append(('escape', tmpl.replace('{{', '\0').replace('}}', '\1').replace('{}', e).replace('\0', '{').replace('\1', '}'),
+                          rnd.random() < 0.5, rnd.random() < 0.5, 'sheet' if rnd.random() < 0.8 else 'style', 'text'))
+    for pre, o, c, post in NESTED:
+        # (deeper nesting is covered by the growth measurements: an unknown rule with n nested blocks takes time ~ n^3,
+        # which is polynomial, so a time-out at depth 3000 would be no violation)
+        for n in (25, 35, 300, 1000):
+            for closed in (True, False):
+                cases.append(('nested', pre + o * n + (c * n if closed else '') + post, n % 2 == 1, True,
+                              'style' if not pre and rnd.random() < 0.3 else 'sheet', 'text'))
+    for pre, item, post in LONG:
+        for n in ((1200,) if tier == 'quick' else (1200, 6000)):
+            cases.append(('long', pre + item * n + post, True, True, 'sheet', 'text'))
+            cases.append(('long', pre + item * n + post, False, False, 'style' if pre.startswith('a{x') else 'sheet', 'text'))
     byt = [('bytes', b) for b in [b'\xff\xfe', b'\xef\xbb\xbf@charset "', b'@charset "x', b'@charset "utf-16";a', b'\x00\x00\xfe\xff',
                                   b'a{content:"\xff"}', b'@charset "ascii";\xe9', b'\xff' * 10, b'@charset "";']]
     for k, b in byt:
@@ -165,8 +213,38 @@ VALIDATION_REDOS = {
 }
 
 
+
+def nested_growth(shape):
+    """running time at nesting depths 8, 12, 16: doubling per level shows as a factor 256"""
+    pre, o, c, post = shape
+    times = []
+    for n in (8, 12, 16):
+        why, secs = parse_one(pre + o * n + c * n + post, True, True, 'sheet')
+        if why:
+            return '%r nested %d deep: %s' % (o, n, why)
+        times.append(max(secs, 0.01))
+    if times[2] / times[0] > 100 and times[2] > 1.0:
+        return 'running time for %r nested (8, 12, 16) deep: %s s - exponential in the depth' % (
+            pre + o + '...' + c + post, ['%.2f' % t for t in times])
+    # and polynomial of small degree further out
+    times = []
+    for n in (150, 300, 600):
+        why, secs = parse_one(pre + o * n + c * n + post, True, True, 'sheet')
+        if why:
+            return '%r nested %d deep: %s' % (o, n, why)
+        times.append(max(secs, 0.02))
+    if times[2] / times[0] > 4 ** 4 and times[2] > 2.0:
+        return 'running time for %r nested (150, 300, 600) deep: %s s - grows faster than n^4' % (
+            pre + o + '...' + c + post, ['%.2f' % t for t in times])
+    return ''
+
+
 def one(c):
-    return run_case(c) if c[0] != 'growth' else growth_case(c[1], c[2])[0]
+    if c[0] == 'growth':
+        return growth_case(c[1], c[2])[0]
+    if c[0] == 'nested-growth':
+        return nested_growth(c[1])
+    return run_case(c)
 
 
 def run(tier, seed):
@@ -175,6 +253,7 @@ def run(tier, seed):
     findings = lib.Findings(PROP)
     cases = gen_cases(tier, seed)
     growth = [('growth', r, k) for r in (REPEAT if tier != 'quick' else REPEAT[::3]) for k in ('sheet',)]
+    growth += [('nested-growth', sh) for sh in NESTED]
     allc = cases + growth
     res = lib.run_with_watchdog(one, allc, 3 * LIMIT_S)
     fails = []
@@ -204,7 +283,11 @@ def run(tier, seed):
                 '%d repetition patterns x 60 and mixed pairs, byte inputs with BOMs / truncated @charset; x validate x '
                 'parseComments x {parseString, parseStyle} x 7 fetcher behaviours; each parse under a %d s CPU limit, then '
                 'cssText of the result and of every rule; running-time growth of every repetition pattern at 150/300/600 '
-                'repetitions (flagged above n^3)' % (len(REPEAT), LIMIT_S),
+                'repetitions (flagged above n^3); %d name positions x %d unusual escapes (out-of-range, zero, surrogate, escaped '
+                'white space, lone backslash); %d constructs nested in themselves 25 / 35 / 300 / 3000 deep, closed and open, and '
+                'their running time at depths 8 / 12 / 16; %d kinds of long flat runs (1200 / 6000 items: terms, commas, selectors, '
+                'declarations, rules, comments, non-ASCII names under validation)' % (
+                    len(REPEAT), LIMIT_S, len(ESC_TEMPLATES), len(ESCAPES), len(NESTED), len(LONG)),
         'traces_validated_against_impl': 0,
         'exhaustive': False,
         'distribution': dict(dist, growth=len(growth)),
